@@ -123,18 +123,20 @@ def axisBox (S : Rat → Bool) (boxSize : Rat) (levelmax : Nat) : Rat × Rat :=
   | some lo, some hi => (max ((centre lo - pad) / boxSize) 0, min ((centre hi + pad) / boxSize) 1)
   | _, _ => (0, 0)     -- the code raises on an empty sample (outside the property's quantifier)
 
+/-- the box of one axis as `hilbert_cpu_list` assembles it: `none` = no function on that axis (the whole domain) -/
+def axisOf (preds : List Loader.Pred) (name : String) (boxSize : Rat) (levelmax : Nat) : Option (Rat × Rat) :=
+  let ps := preds.filter (·.var == name)
+  if ps.isEmpty then none else some (axisBox (fun c => ps.all (·.eval c)) boxSize levelmax)
+
 /-- `hilbert_cpu_list`: `none` = no pre-selection (all cpus) -/
 def hilbertCpuList (t : HTable) (ordering : String) (preds : List Loader.Pred) (boxSize : Rat) (levelmax lmax ncpu ndim : Nat)
     (bk : List Nat) (isDict : Bool) (minCube : Nat := 0) : Option (List Nat) :=
   if ordering != "hilbert" then none
   else if !isDict then none
   else
-    let axis (name : String) : Option (Rat × Rat) :=
-      let ps := preds.filter (·.var == name)
-      if ps.isEmpty then none else some (axisBox (fun c => ps.all (·.eval c)) boxSize levelmax)
-    let ax := axis "position_x"
-    let ay := axis "position_y"
-    let az := axis "position_z"
+    let ax := axisOf preds "position_x" boxSize levelmax
+    let ay := axisOf preds "position_y" boxSize levelmax
+    let az := axisOf preds "position_z" boxSize levelmax
     if ax.isNone && ay.isNone && az.isNone then none
     else
       let bb : BBox := { xmin := (ax.getD (0, 1)).1, xmax := (ax.getD (0, 1)).2,
